@@ -65,25 +65,30 @@ class Gen(object):
         self.drv = drv
         self.p = dict(DEFAULT)
         self.p.update(profile)
-        self.learnt = set()     # generated mailbox ids clients were told
+        self.learnt = {}        # app -> generated mailbox ids its clients were told / could learn
         self.nmsg = 0
 
     # --- helpers
     def flags(self):
         return self.drv.conn_flags()
 
-    def mbox_choices(self):
-        return list(self.p["client_mbox"]) + sorted(self.learnt)
+    def mbox_choices(self, app=None):
+        ids = set()
+        for a, s in self.learnt.items():
+            if app in (None, ABSENT) or a == app:
+                ids |= s
+        return list(self.p["client_mbox"]) + sorted(ids)
 
     def note(self, obs):
+        fl = obs["hid"]["conn"]
         for f in obs["out"]:
-            if f["type"] == "claimed" and f["mailbox"].startswith("g"):
-                self.learnt.add(f["mailbox"])
+            if f["type"] == "claimed" and f["mailbox"].startswith("g") and f["to"] in fl:
+                self.learnt.setdefault(fl[f["to"]]["app"], set()).add(f["mailbox"])
         for r in obs["db"]["np"]:
-            # a client that allocated/claimed can learn the id by claiming; let
-            # eager generators also try ids they merely could have learnt
+            # a client of that app could learn the id by claiming the nameplate;
+            # let eager generators also try such ids
             if r["mbox"].startswith("g") and self.rng.random() < 0.3:
-                self.learnt.add(r["mbox"])
+                self.learnt.setdefault(r["app"], set()).add(r["mbox"])
 
     def rand_msg(self, fl):
         r, p = self.rng, self.p
@@ -109,14 +114,14 @@ class Gen(object):
             if fl["npId"] != ABSENT and r.random() < 0.6:
                 m["nameplate"] = r.choice([ABSENT, fl["npId"]])
         elif ty == "open":
-            ch = self.mbox_choices()
+            ch = self.mbox_choices(fl["app"])
             m["mailbox"] = opt(r.choice(ch)) if ch else ABSENT
         elif ty == "add":
             self.nmsg += 1
             m["phase"] = opt(r.choice(["p1", "p2", "p3"]))
             m["body"] = opt(r.choice(["b1", "b2", "b3"]))
         elif ty == "close":
-            ch = self.mbox_choices()
+            ch = self.mbox_choices(fl["app"])
             m["mailbox"] = r.choice([ABSENT] + ch) if ch else ABSENT
             if fl["mboxId"] != ABSENT and r.random() < 0.7:
                 m["mailbox"] = r.choice([ABSENT, fl["mboxId"]])
